@@ -210,6 +210,13 @@ def run(prog: Program, rep: Report, tier: str):
                 disj = list(c[1]) if c[0] == "or" else [c]
                 if ("not", ("param", "drop_last")) in disj:
                     rejects_no_drop_last = True
+        if not rejects_no_drop_last:
+            # the same fact on the CFG pruned by 'only start_<g> is given, drop_last is false': no normal end is reachable
+            case_ = {is_none(("param", f"start_{w}")): (w != g) for w in UNITS}
+            case_[("param", "drop_last")] = False
+            pa_ = ia.prune(case_)
+            if not pa_.cfg.reachable(pa_.cfg.entry, pa_.cfg.exit):
+                rejects_no_drop_last = True
         if not branches[g]:
             rep.bad("G4.derivation-deps", init, f"branch:start_{g}", f"a checkpoint given as start_{g} is not completed (the "
                     f"other two components keep None)", clause="C06.2")
